@@ -61,8 +61,21 @@ pub static VLD_MODE: AtomicU8 = AtomicU8::new(0);
 pub static VETOES: AtomicU64 = AtomicU64::new(0);
 
 thread_local! {
-    /// number of on_exit callbacks that ran on this thread, and the id of the last one
+    /// number of on_exit callbacks that ran on this thread *in client code*, and the id of the last one
     static TL_EXITS: Cell<(u64, u64)> = const { Cell::new((0, 0)) };
+    /// > 0 while this thread is polling one of the cache's background tasks (executors that run
+    /// them on the caller's thread: tokio current-thread, the seeded executor)
+    static IN_BACKGROUND: Cell<u32> = const { Cell::new(0) };
+}
+
+pub fn background_enter() {
+    IN_BACKGROUND.with(|c| c.set(c.get() + 1));
+}
+pub fn background_exit() {
+    IN_BACKGROUND.with(|c| c.set(c.get().saturating_sub(1)));
+}
+pub fn in_background() -> bool {
+    IN_BACKGROUND.with(|c| c.get() > 0)
 }
 
 pub fn tl_exits() -> (u64, u64) {
@@ -80,7 +93,7 @@ pub fn log(kind: EvKind) {
     }
     let mut g = LOG.lock();
     let seq = seq::next();
-    g.push(Ev { seq, tid: sched::role(), vnow: stretto::verif::clock::now_ns(), kind });
+    g.push(Ev { seq, tid: if in_background() { 0 } else { sched::role() }, vnow: stretto::verif::clock::now_ns(), kind });
 }
 
 pub fn take_log() -> Vec<Ev> {
@@ -105,10 +118,12 @@ impl CacheCallback for Cb {
     fn on_exit(&self, v: Option<Tracked>) {
         match v {
             Some(v) => {
-                TL_EXITS.with(|c| {
-                    let (n, _) = c.get();
-                    c.set((n + 1, v.id));
-                });
+                if !in_background() {
+                    TL_EXITS.with(|c| {
+                        let (n, _) = c.get();
+                        c.set((n + 1, v.id));
+                    });
+                }
                 log(EvKind::Cb { kind: CB_EXIT, id: v.id, key: v.key, index: 0, conflict: 0, cost: -1 });
             }
             None => log(EvKind::CbNone),
